@@ -5,7 +5,7 @@ LEVEL = 'exploration'
 SHARDS = {'quick': 2, 'thorough': 16}
 BUDGET = {'quick': 60, 'thorough': 600}
 TECHNIQUE = 'runtime monitoring at the client boundary: retrieve the signature of the partial object, then really call the partial object on every call shape and compare'
-RULE = ('p = partial(f, *a, **k) for f in U({a,b,c},3) (quick: 350 seeded signatures; thorough: all 1972) x every count '
+RULE = ('p = partial(f, *a, **k) for f in U({a,b,c},3) (quick: 500 seeded signatures; thorough: all 1972) x every count '
         '0..len+1 x every keyword set of size <= 2 (+ a foreign keyword when f has **kwargs) + nested partials; both '
         'signatures.signature(p) and sigtools.signature(p) are compared with the set of shapes on which really calling p '
         'raises no TypeError (non-colliding shapes), plus the structural clauses; partials of forwarding wrappers '
